@@ -13,7 +13,7 @@ from __future__ import annotations
 import itertools
 
 from mc import families
-from mc.common import Ctx, pmap, rotate
+from mc.common import Ctx, pmap, rotate, tag, pmap_tagged
 from mc.fd import AdmissionCounter, Budget, ParsingMode, Timeout, build, snap, time_limit
 from mc.refgrammar import Alt, Bit, Lit, NT, Opt, Plus, RefGrammar, Rep, Rx, Seq, Star, TreeChecker, WordMatcher, snap_text, viable, words
 
@@ -220,7 +220,7 @@ def work(item):
 def run(ctx: Ctx) -> None:
     items = rotate(family(ctx.tier), ctx.seed)
     ctx.log(f"{len(items)} grammars")
-    results = pmap(work, items)
+    results = pmap_tagged(work, items)
     agg = {"grammars": 0, "words": 0, "schedules": 0, "members": 0, "cc_false": 0, "skipped": 0, "spec_errors": 0}
     outcomes = 0
     samples = []
